@@ -77,7 +77,7 @@ Proof.
   - unfold no_newline in H. cbn [sall] in H. apply andb_true_iff in H. destruct H as [H1 H2]. apply negb_true_iff in H1.
     cbn [append skip_go]. rewrite H1. apply IH. exact H2.
 Qed.
-Lemma skip_line_eof : forall b, no_newline b = true -> skip_go KLine b = None.
+Lemma skip_line_eof : forall b, no_newline b = true -> skip_go KLine b = Some EmptyString.
 Proof.
   induction b as [|c b IH]; intros H; [reflexivity|].
   unfold no_newline in H. cbn [sall] in H. apply andb_true_iff in H. destruct H as [H1 H2]. apply negb_true_iff in H1.
@@ -104,6 +104,12 @@ Proof.
 Qed.
 Lemma skip_sep_end : forall s, sep_ok s = true -> skip_ign (sep_text s) = Some EmptyString.
 Proof. intros s H. rewrite <- (sapp_nil_r (sep_text s)), (skip_sep _ _ H). reflexivity. Qed.
+(* the end of a text: ignored text and possibly a last "//" comment without line break *)
+Lemma skip_end : forall sf tl, sep_ok sf = true -> tail_ok tl = true -> skip_ign (end_text sf tl) = Some EmptyString.
+Proof.
+  intros sf tl H1 H2. unfold end_text. rewrite (skip_sep _ _ H1). destruct tl as [b|]; [|reflexivity].
+  change (skip_ign (tail_text (Some b))) with (skip_go KLine b). apply skip_line_eof. exact H2.
+Qed.
 
 (* a text at whose beginning nothing is ignored *)
 Definition stops (s : string) : bool :=
@@ -288,8 +294,8 @@ Proof.
     rewrite S1, (IH _ _ _ Hok Hg3). apply oapp_cons.
 Qed.
 
-Lemma lex_go_end : forall f m sf, sep_ok sf = true -> lex_go (S f) m (sep_text sf) = Some [].
-Proof. intros f m sf H. cbn [lex_go]. rewrite (skip_sep_end _ H). reflexivity. Qed.
+Lemma lex_go_end : forall f m rest, skip_ign rest = Some EmptyString -> lex_go (S f) m rest = Some [].
+Proof. intros f m rest H. cbn [lex_go]. rewrite H. reflexivity. Qed.
 
 Lemma tok_text_len : forall m t, tok_ok m t = true -> 1 <= String.length (tok_text t).
 Proof.
@@ -308,20 +314,27 @@ Proof.
 Qed.
 
 (* fuel: more than needed changes nothing *)
-Lemma lex_go_render_fuel : forall l m sf f, toks_ok m (map snd l) = true -> glue_ok l (sep_text sf) = true -> sep_ok sf = true ->
-  List.length l < f -> lex_go f m (render l (sep_text sf)) = Some (map snd l).
+Lemma lex_go_render_fuel : forall l m rest f, toks_ok m (map snd l) = true -> glue_ok l rest = true -> skip_ign rest = Some EmptyString ->
+  List.length l < f -> lex_go f m (render l rest) = Some (map snd l).
 Proof.
-  intros l m sf f Hok Hg Hs Hf. replace f with (List.length l + S (f - List.length l - 1)) by lia.
+  intros l m rest f Hok Hg Hs Hf. replace f with (List.length l + S (f - List.length l - 1)) by lia.
   rewrite (lex_render_rest _ _ _ _ Hok Hg), (lex_go_end _ _ _ Hs). cbn [oapp]. now rewrite app_nil_r.
 Qed.
 
+Theorem lex_render_end : forall l rest, toks_ok LTop (map snd l) = true -> glue_ok l rest = true -> skip_ign rest = Some EmptyString ->
+  lex (render l rest) = Some (map snd l).
+Proof.
+  intros l rest Hok Hg Hs. unfold lex. apply lex_go_render_fuel; auto.
+  pose proof (render_len l LTop rest Hok). lia.
+Qed.
 Theorem lex_render : forall l sf, toks_ok LTop (map snd l) = true -> glue_ok l (sep_text sf) = true -> sep_ok sf = true ->
   lex (render l (sep_text sf)) = Some (map snd l).
-Proof.
-  intros l sf Hok Hg Hs. unfold lex. apply lex_go_render_fuel; auto.
-  pose proof (render_len l LTop (sep_text sf) Hok). lia.
-Qed.
-(* a rest in which the ignored text does not end (a "//" comment without newline, an open block comment or attribute): rejected *)
+Proof. intros l sf Hok Hg Hs. apply lex_render_end; auto. apply skip_sep_end. exact Hs. Qed.
+(* ... and the text may END in a "//" comment without line break *)
+Theorem lex_render_tail : forall l sf tl, toks_ok LTop (map snd l) = true -> glue_ok l (end_text sf tl) = true -> sep_ok sf = true ->
+  tail_ok tl = true -> lex (render l (end_text sf tl)) = Some (map snd l).
+Proof. intros l sf tl Hok Hg Hs Ht. apply lex_render_end; auto. apply skip_end; auto. Qed.
+(* a rest in which the ignored text does not end (an open block comment or attribute): rejected *)
 Lemma lex_go_rest_none : forall l m rest f, toks_ok m (map snd l) = true -> glue_ok l rest = true -> skip_ign rest = None ->
   lex_go f m (render l rest) = None.
 Proof.
@@ -776,6 +789,21 @@ Proof.
   - rewrite E. apply toks_ok_tree. exact Hw.
 Qed.
 
+Theorem parse_render_tail : forall l sf tl, toks_ok LTop (map snd l) = true -> glue_ok l (end_text sf tl) = true -> sep_ok sf = true ->
+  tail_ok tl = true -> parse_verilog (render l (end_text sf tl)) = parse_toks (map snd l).
+Proof. intros l sf tl H1 H2 H3 H4. unfold parse_verilog. now rewrite (lex_render_tail l sf tl H1 H2 H3 H4). Qed.
+(* since the repair of verilog.GRAMMAR (the newline after a "//" comment is no longer part of it): every way of writing a well-formed
+   tree may END in a line comment without line break *)
+Theorem eof_line_comment_accepted : forall t l sf b, wf_tree t = true -> map snd l = toks_tree t ->
+  glue_ok l (sep_text sf ++ "//" ++ b)%string = true -> sep_ok sf = true -> no_newline b = true ->
+  parse_verilog (render l (sep_text sf ++ "//" ++ b)%string) = Some t.
+Proof.
+  intros t l sf b Hw E Hg Hs Hb. change (sep_text sf ++ "//" ++ b)%string with (end_text sf (Some b)) in *.
+  rewrite parse_render_tail; auto.
+  - rewrite E. apply parse_toks_complete. apply wf_shape_tree. exact Hw.
+  - rewrite E. apply toks_ok_tree. exact Hw.
+Qed.
+
 Lemma follows_blank : forall t c r, (c = c_sp \/ c = c_nl) -> follows_ok t (String c r) = true.
 Proof.
   intros t c r Hc. destruct t; try reflexivity; cbn [follows_ok first_is];
@@ -795,25 +823,22 @@ Proof.
   apply parse_any_rendering; auto; [apply map_snd_print | apply glue_print].
 Qed.
 
-(* (c) what is rejected.  Ignored text that does not end -- a "//" comment without a newline before the end of the text, an
-   open block comment or attribute -- makes the whole text unreadable, whatever precedes it *)
+(* (c) what is rejected.  Ignored text that does not end -- an open block comment or attribute -- makes the whole text unreadable,
+   whatever precedes it *)
 Theorem open_ignored_rejected : forall l rest, toks_ok LTop (map snd l) = true -> glue_ok l rest = true -> skip_ign rest = None ->
   parse_verilog (render l rest) = None.
 Proof. intros l rest H1 H2 H3. unfold parse_verilog, lex. now rewrite (lex_go_rest_none l LTop rest _ H1 H2 H3). Qed.
-Theorem eof_line_comment_rejected : forall l sf b, toks_ok LTop (map snd l) = true ->
-  glue_ok l (sep_text sf ++ "//" ++ b)%string = true -> sep_ok sf = true -> no_newline b = true ->
-  parse_verilog (render l (sep_text sf ++ "//" ++ b)%string) = None.
-Proof.
-  intros l sf b H1 H2 H3 H4. apply open_ignored_rejected; auto. rewrite (skip_sep _ _ H3).
-  change (skip_ign ("//" ++ b)%string) with (skip_go KLine b). apply skip_line_eof. exact H4.
-Qed.
 Local Open Scope string_scope.
-(* FINDING: a netlist whose last line is a comment without line break -- accepted by every Verilog tool -- is rejected; with the
-   line break it is read *)
+(* a netlist whose last line is a comment without line break is read (it was rejected before the repair of verilog.GRAMMAR); so are
+   a last comment that ends in a carriage return and an empty last comment; an open block comment is rejected *)
 Example eof_comment_witness :
-  parse_verilog "module m (); endmodule // end" = None /\
+  parse_verilog "module m (); endmodule // end" = Some [mkT "m" [] []] /\
   parse_verilog ("module m (); endmodule // end" ++ nl1) = Some [mkT "m" [] []] /\
-  parse_verilog "module m (); endmodule /* end */" = Some [mkT "m" [] []].
+  parse_verilog ("module m (); endmodule // end" ++ chr c_cr) = Some [mkT "m" [] []] /\
+  parse_verilog "module m (); endmodule //" = Some [mkT "m" [] []] /\
+  parse_verilog "//" = Some [] /\
+  parse_verilog "module m (); endmodule /* end */" = Some [mkT "m" [] []] /\
+  parse_verilog "module m (); endmodule /* end" = None.
 Proof. repeat split; vm_compute; reflexivity. Qed.
 (* keywords are keywords only at the beginning of a statement; `module` is a plain prefix at top level; a sized constant takes
    every hexadecimal digit; an escaped name keeps its terminator; "(*)" is not an attribute, "/*/" not a comment *)
@@ -852,92 +877,103 @@ Proof.
     apply Ascii.eqb_eq in H; auto.
 Qed.
 
+(* what precedes [r]: ignored text, then possibly a last "//" comment that runs to the end of the text (then r is empty) *)
+Definition pre_ok (x r : string) : Prop :=
+  exists sp tl, sep_ok sp = true /\ tail_ok tl = true /\ x = (sep_text sp ++ tail_text tl ++ r)%string /\ lpar_ok r = true /\
+                (tl = None \/ r = EmptyString).
+Lemma pre_ok_nil r : lpar_ok r = true -> pre_ok r r.
+Proof. intro H. exists [], None. repeat split; auto. Qed.
+Lemma pre_ok_cons i x r : ign_ok i = true -> pre_ok x r -> pre_ok (ign_text i ++ x) r.
+Proof.
+  intros Hi [sp [tl [H1 [H2 [H3 [H4 H5]]]]]]. exists (i :: sp), tl. repeat split; auto.
+  - cbn [sep_ok forallb]. now rewrite Hi.
+  - cbn [sep_text]. rewrite sapp_assoc. now rewrite H3.
+Qed.
+
 Lemma skip_inv : forall n s k r, String.length s <= n -> skip_go k s = Some r ->
   match k with
-  | K0 => exists sp, sep_ok sp = true /\ s = (sep_text sp ++ r)%string /\ lpar_ok r = true
-  | KBlock st => exists b sp, body_ok c_slash false b = true /\ sep_ok sp = true /\
-                 (pre st ++ s = b ++ cl_text true ++ sep_text sp ++ r)%string /\ lpar_ok r = true
-  | KAttr st => exists b sp, body_ok c_rpar false b = true /\ sep_ok sp = true /\
-                (pre st ++ s = b ++ cl_text false ++ sep_text sp ++ r)%string /\ lpar_ok r = true
-  | KLine => exists b sp, no_newline b = true /\ sep_ok sp = true /\ s = (b ++ nl1 ++ sep_text sp ++ r)%string /\ lpar_ok r = true
+  | K0 => pre_ok s r
+  | KBlock st => exists b x, body_ok c_slash false b = true /\ (pre st ++ s = b ++ cl_text true ++ x)%string /\ pre_ok x r
+  | KAttr st => exists b x, body_ok c_rpar false b = true /\ (pre st ++ s = b ++ cl_text false ++ x)%string /\ pre_ok x r
+  | KLine => exists b, no_newline b = true /\ ((exists x, s = (b ++ nl1 ++ x)%string /\ pre_ok x r) \/ (s = b /\ r = EmptyString))
   end.
 Proof.
-  assert (CM : forall n, (forall s r, String.length s <= n -> skip_go K0 s = Some r ->
-                            exists sp, sep_ok sp = true /\ s = (sep_text sp ++ r)%string /\ lpar_ok r = true) ->
+  assert (CM : forall n, (forall s r, String.length s <= n -> skip_go K0 s = Some r -> pre_ok s r) ->
                forall blk s st r, String.length s <= S n -> skip_go (kcm blk st) s = Some r ->
-               exists b sp, body_ok (cend blk) false b = true /\ sep_ok sp = true /\
-                 (pre st ++ s = b ++ cl_text blk ++ sep_text sp ++ r)%string /\ lpar_ok r = true).
+               exists b x, body_ok (cend blk) false b = true /\ (pre st ++ s = b ++ cl_text blk ++ x)%string /\ pre_ok x r).
   { intros n H0 blk. induction s as [|c s IH]; intros st r Hn H; [destruct blk; discriminate H|].
     rewrite skip_kcm in H. cbn [String.length] in Hn.
     destruct (st && Ascii.eqb c (cend blk)) eqn:E.
     - apply andb_true_iff in E. destruct E as [-> E]. apply Ascii.eqb_eq in E. subst c.
-      destruct (H0 s r ltac:(lia) H) as [sp [H1 [H2 H3]]]. exists EmptyString, sp. repeat split; auto. subst s. reflexivity.
-    - destruct (IH _ _ ltac:(lia) H) as [b [sp [H1 [H2 [H3 H4]]]]].
+      exists EmptyString, s. repeat split; auto. apply H0; auto. lia.
+    - destruct (IH _ _ ltac:(lia) H) as [b [x [H1 [H3 H4]]]].
       destruct (Ascii.eqb c c_star) eqn:Ec.
       + apply Ascii.eqb_eq in Ec. subst c. cbn [pre append] in H3.
         destruct st; cbn [pre append].
-        * exists (String c_star b), sp. repeat split; auto.
-          -- rewrite body_ok_star. destruct b as [|x b']; [reflexivity|]. cbn [append] in H3. injection H3 as Hx _. subst x.
+        * exists (String c_star b), x. repeat split; auto.
+          -- rewrite body_ok_star. destruct b as [|y b']; [reflexivity|]. cbn [append] in H3. injection H3 as Hx _. subst y.
              cbn [body_ok] in *. destruct blk; exact H1.
           -- cbn [append]. now rewrite H3.
-        * exists b, sp. repeat split; auto.
+        * exists b, x. repeat split; auto.
       + cbn [pre append] in H3. destruct st; cbn [pre append].
-        * exists (String c_star (String c b)), sp. repeat split; auto.
+        * exists (String c_star (String c b)), x. repeat split; auto.
           -- rewrite body_ok_star. cbn [body_ok]. rewrite Ec. cbn [andb] in E. rewrite E. exact H1.
           -- cbn [append]. now rewrite H3.
-        * exists (String c b), sp. repeat split; auto.
+        * exists (String c b), x. repeat split; auto.
           -- cbn [body_ok andb negb]. rewrite Ec. exact H1.
           -- cbn [append]. now rewrite H3. }
+  assert (LN : forall n, (forall s r, String.length s <= n -> skip_go K0 s = Some r -> pre_ok s r) ->
+               forall s r, String.length s <= S n -> skip_go KLine s = Some r ->
+               exists b, no_newline b = true /\ ((exists x, s = (b ++ nl1 ++ x)%string /\ pre_ok x r) \/ (s = b /\ r = EmptyString))).
+  { intros n H0. induction s as [|c s IH]; intros r Hn H.
+    - inj H. exists EmptyString. split; [reflexivity|]. right. auto.
+    - cbn [String.length] in Hn. cbn [skip_go] in H. destruct (Ascii.eqb c c_nl) eqn:E.
+      + apply Ascii.eqb_eq in E. subst c. exists EmptyString. split; [reflexivity|]. left. exists s. split; [reflexivity|]. apply H0; auto. lia.
+      + destruct (IH r ltac:(lia) H) as [b [H1 H2]]. exists (String c b). split.
+        * unfold no_newline in *. cbn [sall]. rewrite E. exact H1.
+        * destruct H2 as [[x [-> Hx]] | [-> ->]]; [left; exists x; split; [reflexivity | exact Hx] | right; auto]. }
   induction n as [|n IHn]; intros s k r Hn H.
-  - destruct s; [|cbn in Hn; lia]. destruct k; try discriminate H. inj H. exists []. repeat split.
-  - assert (H0 : forall s r, String.length s <= n -> skip_go K0 s = Some r ->
-                   exists sp, sep_ok sp = true /\ s = (sep_text sp ++ r)%string /\ lpar_ok r = true) by (intros s0 r0 A B; exact (IHn s0 K0 r0 A B)).
+  - destruct s; [|cbn in Hn; lia]. destruct k; try discriminate H; inj H.
+    + apply pre_ok_nil. reflexivity.
+    + exists EmptyString. split; [reflexivity|]. right. auto.
+  - assert (H0 : forall s r, String.length s <= n -> skip_go K0 s = Some r -> pre_ok s r) by (intros s0 r0 A B; exact (IHn s0 K0 r0 A B)).
     destruct k.
     + (* K0 *)
-      destruct s as [|c s]; [inj H; exists []; repeat split|]. cbn [String.length] in Hn. cbn [skip_go] in H.
+      destruct s as [|c s]; [inj H; apply pre_ok_nil; reflexivity|]. cbn [String.length] in Hn. cbn [skip_go] in H.
       destruct (is_blank c || Ascii.eqb c c_nl) eqn:E1.
-      { destruct (H0 s r ltac:(lia) H) as [sp [H1 [H2 H3]]]. apply orb_true_iff in E1. destruct E1 as [E1|E1].
-        - destruct (blank_inv _ E1) as [-> | [-> | ->]]; [exists (IgTab :: sp) | exists (IgSpace :: sp) | exists (IgFf :: sp)];
-            repeat split; auto; subst s; reflexivity.
-        - apply Ascii.eqb_eq in E1. subst c. exists (IgNl :: sp). repeat split; auto. subst s. reflexivity. }
+      { pose proof (H0 s r ltac:(lia) H) as P. apply orb_true_iff in E1. destruct E1 as [E1|E1].
+        - destruct (blank_inv _ E1) as [-> | [-> | ->]];
+            [exact (pre_ok_cons IgTab _ _ eq_refl P) | exact (pre_ok_cons IgSpace _ _ eq_refl P) | exact (pre_ok_cons IgFf _ _ eq_refl P)].
+        - apply Ascii.eqb_eq in E1. subst c. exact (pre_ok_cons IgNl _ _ eq_refl P). }
       destruct (Ascii.eqb c c_cr) eqn:E2.
-      { apply Ascii.eqb_eq in E2. subst c. destruct s as [|d s']; [inj H; exists []; repeat split|].
-        destruct (Ascii.eqb d c_nl) eqn:E3; [|inj H; exists []; repeat split].
-        apply Ascii.eqb_eq in E3. subst d. cbn [String.length] in Hn. destruct (H0 s' r ltac:(lia) H) as [sp [H1 [H2 H3]]].
-        exists (IgCrNl :: sp). repeat split; auto. subst s'. reflexivity. }
+      { apply Ascii.eqb_eq in E2. subst c. destruct s as [|d s']; [inj H; apply pre_ok_nil; reflexivity|].
+        destruct (Ascii.eqb d c_nl) eqn:E3; [|inj H; apply pre_ok_nil; reflexivity].
+        apply Ascii.eqb_eq in E3. subst d. cbn [String.length] in Hn. exact (pre_ok_cons IgCrNl _ _ eq_refl (H0 s' r ltac:(lia) H)). }
       destruct (Ascii.eqb c c_slash) eqn:E3.
-      { apply Ascii.eqb_eq in E3. subst c. destruct s as [|d s']; [inj H; exists []; repeat split|]. cbn [String.length] in Hn.
+      { apply Ascii.eqb_eq in E3. subst c. destruct s as [|d s']; [inj H; apply pre_ok_nil; reflexivity|]. cbn [String.length] in Hn.
         destruct (Ascii.eqb d c_star) eqn:E4.
         - apply Ascii.eqb_eq in E4. subst d.
-          destruct (CM n H0 true s' false r ltac:(lia) H) as [b [sp [H1 [H2 [H3 H4]]]]]. cbn [pre append] in H3.
-          exists (IgBlock b :: sp). repeat split; auto.
-          + cbn [sep_ok forallb ign_ok]. cbn [cend] in H1. rewrite H1. exact H2.
-          + cbn [sep_text ign_text]. rewrite H3. rewrite !sapp_assoc. reflexivity.
-        - destruct (Ascii.eqb d c_slash) eqn:E5; [|inj H; exists []; repeat split].
+          destruct (CM n H0 true s' false r ltac:(lia) H) as [b [x [H1 [H3 H4]]]]. cbn [pre append] in H3. subst s'.
+          assert (Hi : ign_ok (IgBlock b) = true) by exact H1.
+          pose proof (pre_ok_cons (IgBlock b) _ _ Hi H4) as P. cbn [ign_text] in P. rewrite !sapp_assoc in P. exact P.
+        - destruct (Ascii.eqb d c_slash) eqn:E5; [|inj H; apply pre_ok_nil; reflexivity].
           apply Ascii.eqb_eq in E5. subst d.
-          destruct (IHn s' KLine r ltac:(lia) H) as [b [sp [H1 [H2 [H3 H4]]]]].
-          exists (IgLine b :: sp). repeat split; auto.
-          + cbn [sep_ok forallb ign_ok]. rewrite H1. exact H2.
-          + cbn [sep_text ign_text]. rewrite H3. rewrite !sapp_assoc. reflexivity. }
+          destruct (LN n H0 s' r ltac:(lia) H) as [b [H1 [[x [-> Hx]] | [-> ->]]]].
+          + assert (Hi : ign_ok (IgLine b) = true) by exact H1.
+            pose proof (pre_ok_cons (IgLine b) _ _ Hi Hx) as P. cbn [ign_text] in P. rewrite !sapp_assoc in P. exact P.
+          + exists [], (Some b). repeat split; auto. cbn [sep_text tail_text append]. now rewrite sapp_nil_r. }
       destruct (Ascii.eqb c c_lpar) eqn:E4.
-      { apply Ascii.eqb_eq in E4. subst c. destruct s as [|d s']; [inj H; exists []; repeat split|]. cbn [String.length] in Hn.
+      { apply Ascii.eqb_eq in E4. subst c. destruct s as [|d s']; [inj H; apply pre_ok_nil; reflexivity|]. cbn [String.length] in Hn.
         destruct (Ascii.eqb d c_star) eqn:E5.
         - apply Ascii.eqb_eq in E5. subst d.
-          destruct (CM n H0 false s' false r ltac:(lia) H) as [b [sp [H1 [H2 [H3 H4]]]]]. cbn [pre append] in H3.
-          exists (IgAttr b :: sp). repeat split; auto.
-          + cbn [sep_ok forallb ign_ok]. cbn [cend] in H1. rewrite H1. exact H2.
-          + cbn [sep_text ign_text]. rewrite H3. rewrite !sapp_assoc. reflexivity.
-        - inj H. exists []. repeat split. cbn [lpar_ok first_is]. rewrite (Ascii.eqb_sym c_star d), E5. rewrite andb_false_r. reflexivity. }
-      inj H. exists []. repeat split. cbn [lpar_ok]. rewrite E4. reflexivity.
+          destruct (CM n H0 false s' false r ltac:(lia) H) as [b [x [H1 [H3 H4]]]]. cbn [pre append] in H3. subst s'.
+          assert (Hi : ign_ok (IgAttr b) = true) by exact H1.
+          pose proof (pre_ok_cons (IgAttr b) _ _ Hi H4) as P. cbn [ign_text] in P. rewrite !sapp_assoc in P. exact P.
+        - inj H. apply pre_ok_nil. cbn [lpar_ok first_is]. rewrite (Ascii.eqb_sym c_star d), E5. rewrite andb_false_r. reflexivity. }
+      inj H. apply pre_ok_nil. cbn [lpar_ok]. rewrite E4. reflexivity.
     + exact (CM n H0 true s star r Hn H).
     + exact (CM n H0 false s star r Hn H).
-    + clear CM. revert r Hn H. induction s as [|c s IH]; intros r Hn H; [discriminate H|].
-      cbn [String.length] in Hn. cbn [skip_go] in H. destruct (Ascii.eqb c c_nl) eqn:E.
-      * apply Ascii.eqb_eq in E. subst c. destruct (H0 s r ltac:(lia) H) as [sp [H1 [H2 H3]]].
-        exists EmptyString, sp. repeat split; auto. subst s. reflexivity.
-      * destruct (IH r ltac:(lia) H) as [b [sp [H1 [H2 [H3 H4]]]]]. exists (String c b), sp. repeat split; auto.
-        -- unfold no_newline in *. cbn [sall]. rewrite E. exact H1.
-        -- cbn [append]. now rewrite H3.
+    + exact (LN n H0 s r Hn H).
 Qed.
 
 Lemma drop_prefix_inv : forall p s r, drop_prefix p s = Some r -> s = (p ++ r)%string.
@@ -1044,30 +1080,33 @@ Proof.
 Qed.
 
 Lemma lex_go_inv : forall f m s ts, lex_go f m s = Some ts ->
-  exists l sf, s = render l (sep_text sf) /\ map snd l = ts /\ toks_ok m ts = true /\ glue_ok l (sep_text sf) = true /\ sep_ok sf = true.
+  exists l sf tl, s = render l (end_text sf tl) /\ map snd l = ts /\ toks_ok m ts = true /\ glue_ok l (end_text sf tl) = true /\
+                  sep_ok sf = true /\ tail_ok tl = true.
 Proof.
   induction f as [|f IH]; intros m s ts H; [discriminate H|].
   cbn [lex_go] in H. destruct (skip_ign s) as [s1|] eqn:E; [|discriminate H].
-  destruct (skip_inv (String.length s) s K0 s1 (le_n _) E) as [sp [H1 [H2 H3]]].
+  destruct (skip_inv (String.length s) s K0 s1 (le_n _) E) as [sp [tl [H1 [Ht [H2 [H3 H4]]]]]].
   destruct s1 as [|c s1].
-  - inj H. exists [], sp. repeat split; auto. cbn [render]. rewrite sapp_nil_r. reflexivity.
-  - destruct (scan_tok m (String c s1)) as [[t r]|] eqn:Es; [|discriminate H].
+  - inj H. exists [], sp, tl. repeat split; auto. cbn [render]. unfold end_text. f_equal. apply sapp_nil_r.
+  - destruct H4 as [-> | H4]; [|discriminate H4]. cbn [tail_text append] in H2.
+    destruct (scan_tok m (String c s1)) as [[t r]|] eqn:Es; [|discriminate H].
     destruct (lex_go f (mode_after t) r) as [ts'|] eqn:El; [|discriminate H]. inj H.
     destruct (scan_tok_inv _ _ _ _ Es H3) as [S1 [S2 S3]].
-    destruct (IH _ _ _ El) as [l [sf [L1 [L2 [L3 [L4 L5]]]]]].
-    exists ((sp, t) :: l), sf. subst r. repeat split; auto.
+    destruct (IH _ _ _ El) as [l [sf [tl' [L1 [L2 [L3 [L4 [L5 L6]]]]]]]].
+    exists ((sp, t) :: l), sf, tl'. subst r. repeat split; auto.
     + cbn [render]. rewrite S1. reflexivity.
     + cbn [map snd]. now rewrite L2.
     + cbn [toks_ok]. now rewrite S2, L3.
     + cbn [glue_ok]. now rewrite H1, S3, L4.
 Qed.
-(** the lexer accepts EXACTLY the renderings: ignored text (only the eight forms of [ign]) in front of every token and at the end,
-    every token one that the scanner of its parser state returns, nothing after a token that would prolong it *)
+(** the lexer accepts EXACTLY the renderings: ignored text (only the eight forms of [ign]) in front of every token and at the end --
+    where a last "//" comment needs no line break --, every token one that the scanner of its parser state returns, nothing after a
+    token that would prolong it *)
 Theorem lex_iff : forall s ts, lex s = Some ts <-> rendering s ts.
 Proof.
   intros s ts. split.
-  - intro H. unfold lex in H. destruct (lex_go_inv _ _ _ _ H) as [l [sf [H1 [H2 [H3 [H4 H5]]]]]]. exists l, sf. auto.
-  - intros [l [sf [-> [<- [H3 [H4 H5]]]]]]. apply lex_render; auto.
+  - intro H. unfold lex in H. destruct (lex_go_inv _ _ _ _ H) as [l [sf [tl [H1 [H2 [H3 [H4 [H5 H6]]]]]]]]. exists l, sf, tl. repeat split; auto.
+  - intros [l [sf [tl [-> [<- [H3 [H4 [H5 H6]]]]]]]]. apply lex_render_tail; auto.
 Qed.
 (** (c) the language of verilog.GRAMMAR under lark, exactly: a text is accepted with tree [t] iff it is a rendering of the token stream of
     [t] and [t] has no empty name list / concatenation *)
